@@ -346,10 +346,11 @@ fn text_case(o: &mut Out, t: &TextItem, written: Option<&Chunk>) {
 }
 
 fn expected_text_ok(t: &TextItem) -> bool {
-    let kw_ok = |kw: &str| { let n = kw.chars().count(); n >= 1 && n <= 79 && kw.chars().all(|c| (c as u32) < 256) };
+    // a keyword, a language tag and a translated keyword end at their first zero byte: one that contains a NUL cannot be represented
+    let kw_ok = |kw: &str| { let n = kw.chars().count(); n >= 1 && n <= 79 && kw.chars().all(|c| (c as u32) < 256 && c != '\0') };
     match t {
         TextItem::T { kw, text } | TextItem::Z { kw, text, .. } => kw_ok(kw) && text.chars().all(|c| (c as u32) < 256),
-        TextItem::I { kw, lang, .. } => kw_ok(kw) && lang.is_ascii(),
+        TextItem::I { kw, lang, trans, .. } => kw_ok(kw) && lang.is_ascii() && !lang.contains('\0') && !trans.contains('\0'),
     }
 }
 
@@ -503,6 +504,25 @@ fn refusal_cases(o: &mut Out, rng: &mut Rng) {
                 check_meta(o, &base(vec![], vec![t]), "refusal");
             }
         }
+    }
+    // a NUL inside a keyword (all three kinds), a language tag or a translated keyword: the field would be read back cut short
+    for kw in ["a\0b", "\0", "key\0", "\0key"] {
+        for t in [TextItem::T { kw: kw.into(), text: "text".into() }, TextItem::Z { kw: kw.into(), text: "text".into(), pre: false },
+                  TextItem::I { kw: kw.into(), compressed: false, lang: "en".into(), trans: "t".into(), text: "x".into(), pre: false }] {
+            check_meta(o, &base(vec![t.clone()], vec![]), "refusal");
+            check_meta(o, &base(vec![], vec![t]), "refusal");
+        }
+    }
+    for (lang, trans) in [("e\0n", "t"), ("en", "t\0u"), ("\0", ""), ("en", "\0")] {
+        for compressed in [false, true] {
+            let t = TextItem::I { kw: "k".into(), compressed, lang: lang.into(), trans: trans.into(), text: "x".into(), pre: false };
+            check_meta(o, &base(vec![t.clone()], vec![]), "refusal");
+            check_meta(o, &base(vec![], vec![t]), "refusal");
+        }
+    }
+    // NUL inside the TEXT of a tEXt / iTXt chunk is kept (the text is the rest of the chunk)
+    for t in [TextItem::T { kw: "k".into(), text: "a\0b".into() }, TextItem::I { kw: "k".into(), compressed: false, lang: "".into(), trans: "".into(), text: "a\0b".into(), pre: false }] {
+        check_meta(o, &base(vec![t.clone()], vec![]), "nul-in-text");
     }
     for lang in ["fran\u{e7}ais", "\u{4e2d}", "en\u{a0}"] {
         let t = TextItem::I { kw: "k".into(), compressed: false, lang: lang.into(), trans: "".into(), text: "x".into(), pre: false };
